@@ -34,6 +34,7 @@
 //	        20 bytes, 4 KiB and 64 KiB: the long ones keep Matches inside its loop for milliseconds) and an outpoint.
 //	        Every sequential order answers true; false is a torn read (C20:torn_read), a panic an index computed for one
 //	        message applied to the other.
+//	gcsmulti  (Round 3) see childGCSMulti: two independent GCS filters of more than 64 KiB (thorough: 1 MiB) each.
 //	hammer  (Round 3) adders on 1..8-byte arrays with 50 hash functions and long runs: every Add rewrites the same few
 //	        bytes, an unlocked read-modify-write loses bits (C20:lost_insertion).
 //
@@ -604,6 +605,7 @@ func childReadReload(p params) childOut {
 	mk := func(s shape) []byte {
 		ref := refFromBytes(make([]byte, s.size), s.nh, s.tweak)
 		for _, x := range X {
+			tick()
 			ref.insert(x)
 		}
 		ref.insert(refOutpoint(txid[:], op.Index))
@@ -689,6 +691,114 @@ func childReadReload(p params) childOut {
 	if m := f.MsgFilterLoad(); m == nil || !(bytes.Equal(m.Filter, bytesA) || bytes.Equal(m.Filter, bytesB)) {
 		violate("C20:atomicity", "after the join the loaded array is neither of the two messages that were ever loaded", nil)
 	}
+	out.Violations = viol
+	return out
+}
+
+// childGCSMulti (Round 3): two INDEPENDENT GCS filters of filter_bytes elements each (25 000 elements at P=19 are
+// about 64 KiB of filter data, 450 000 more than 1 MiB: above any size threshold that might gate a copy / buffer
+// path), goroutine g queries filter g mod 2 only.  Read-only use of immutable values: every Bytes()/NBytes() equals
+// the bytes taken before the goroutines started, every member matches, every answer equals the sequential one.
+func childGCSMulti(p params) childOut {
+	out := childOut{Params: p, Race: raceEnabled, Tags: builtWithVerifTag}
+	rng := vh.NewRNG(p.Seed)
+	type fs struct {
+		f       *gcs.Filter
+		key     [gcs.KeySize]byte
+		data    [][]byte
+		bytes   []byte
+		nbytes  []byte
+		probes  [][]byte
+		answers []bool
+		anyQ    [][]byte
+		anyA    bool
+	}
+	var F [2]fs
+	for i := range F {
+		copy(F[i].key[:], rng.Bytes(16))
+		n := p.Size + rng.Intn(1+p.Size/50)
+		F[i].data = make([][]byte, n)
+		for j := range F[i].data {
+			F[i].data[j] = rng.Bytes(8 + rng.Intn(24))
+		}
+		tick()
+		f, err := gcs.BuildGCSFilter(19, 784931, F[i].key, F[i].data)
+		tick()
+		if err != nil {
+			out.Violations = append(out.Violations, childViolation{"C20:gcs:build", fmt.Sprint(err), nil})
+			return out
+		}
+		F[i].f = f
+		F[i].bytes, _ = f.Bytes()
+		F[i].nbytes, _ = f.NBytes()
+		for j := 0; j < 16; j++ {
+			q := rng.Bytes(8 + rng.Intn(24))
+			if j%2 == 0 {
+				q = F[i].data[rng.Intn(n)]
+			}
+			a, _ := f.Match(F[i].key, q)
+			tick()
+			F[i].probes, F[i].answers = append(F[i].probes, q), append(F[i].answers, a)
+		}
+		for j := 0; j < 20; j++ {
+			F[i].anyQ = append(F[i].anyQ, rng.Bytes(12))
+		}
+		F[i].anyA, _ = f.MatchAny(F[i].key, F[i].anyQ)
+	}
+	out.Init = fmt.Sprintf("filter data: %d and %d bytes", len(F[0].bytes), len(F[1].bytes))
+	var mu sync.Mutex
+	var viol []childViolation
+	violate := func(key, what string, info interface{}) {
+		mu.Lock()
+		if len(viol) < 5 {
+			viol = append(viol, childViolation{key, what, info})
+		}
+		mu.Unlock()
+	}
+	var ops int64
+	start := make(chan struct{})
+	var wg sync.WaitGroup
+	for g := 0; g < p.Goroutines; g++ {
+		wg.Add(1)
+		r := rng.Fork(fmt.Sprintf("g%d", g))
+		go func(g int, r *vh.RNG) {
+			defer wg.Done()
+			defer func() {
+				if e := recover(); e != nil {
+					violate("C20:panic", fmt.Sprintf("a GCS query panicked while another filter was queried: %v", e), map[string]interface{}{"goroutine": g})
+				}
+			}()
+			x := &F[g%2]
+			info := map[string]interface{}{"goroutine": g, "filter": g % 2, "filter_data_bytes": len(x.bytes)}
+			<-start
+			for j := 0; j < p.PerG; j++ {
+				tick()
+				switch r.Intn(5) {
+				case 0:
+					if b, err := x.f.Bytes(); err != nil || !bytes.Equal(b, x.bytes) {
+						violate("C20:gcs:mutated", "Bytes() of an immutable GCS filter returned other bytes while ANOTHER filter was being queried (foreign or torn data)", info)
+					}
+				case 1:
+					if b, err := x.f.NBytes(); err != nil || !bytes.Equal(b, x.nbytes) {
+						violate("C20:gcs:mutated", "NBytes() of an immutable GCS filter returned other bytes while ANOTHER filter was being queried", info)
+					}
+				case 2:
+					if a, err := x.f.MatchAny(x.key, x.anyQ); err != nil || a != x.anyA {
+						violate("C20:gcs:answer", "a concurrent GCS MatchAny differs from the sequential answer (independent filters in use)", info)
+					}
+				default:
+					k := r.Intn(len(x.probes))
+					if a, err := x.f.Match(x.key, x.probes[k]); err != nil || a != x.answers[k] {
+						violate("C20:gcs:answer", "a concurrent GCS Match differs from the sequential answer (independent filters in use; members are even probes)", map[string]interface{}{"goroutine": g, "filter": g % 2, "filter_data_bytes": len(x.bytes), "probe_is_member": k%2 == 0, "got": a, "error": fmt.Sprint(err)})
+					}
+				}
+			}
+			atomic.AddInt64(&ops, int64(p.PerG))
+		}(g, r)
+	}
+	close(start)
+	wg.Wait()
+	out.Ops = ops
 	out.Violations = viol
 	return out
 }
@@ -780,6 +890,7 @@ func childGCS(p params) childOut {
 				qs[i].many = append(qs[i].many, rng.Bytes(1+rng.Intn(40)))
 			}
 		}
+		tick()
 		qs[i].want[0], _ = fseq.Match(key, qs[i].single)
 		qs[i].want[1], _ = fseq.MatchAny(key, qs[i].many)
 		qs[i].want[2], _ = fseq.ZipMatchAny(key, qs[i].many)
@@ -1117,6 +1228,8 @@ func main() {
 			co = childAddReload(p)
 		case "readreload":
 			co = childReadReload(p)
+		case "gcsmulti":
+			co = childGCSMulti(p)
 		}
 		j, _ := json.Marshal(co)
 		vh.Must(os.WriteFile(*childOutF, j, 0o644))
@@ -1147,7 +1260,7 @@ func main() {
 			rep.Extra["production_binary"] = "cmd/c20 rebuilt with plain `go build` (no -race, no build tag) and every scenario run in it as well: code under //go:build !race or !verif is observed there"
 		}
 	}
-	budget = time.Duration(cfg.Scale(700, 900)) * time.Second
+	budget = time.Duration(cfg.Scale(400, 540)) * time.Second
 	if cfg.Search {
 		budget = 700 * time.Second
 	}
@@ -1213,7 +1326,14 @@ func main() {
 					runChild(params{Scenario: "addreload", Goroutines: k, PerG: cfg.Scale(4, 8), Size: vh.Pick(r, []int{64, 1024}), HashFuncs: uint32(10 + r.Intn(20)), Seed: r.U64()})
 				}
 				if k == 4 || k == 16 || cfg.Thorough() || cfg.Search {
-					runChild(params{Scenario: "readreload", Goroutines: k, PerG: cfg.Scale(1200, 4000), Size: vh.Pick(r, []int{64, 512, 4096}), HashFuncs: uint32(10 + r.Intn(41)), Tweak: r.U32(), Seed: r.U64()})
+					runChild(params{Scenario: "readreload", Goroutines: k, PerG: cfg.Scale(800, 3000), Size: vh.Pick(r, []int{64, 512, 4096}), HashFuncs: uint32(10 + r.Intn(41)), Tweak: r.U32(), Seed: r.U64()})
+				}
+				if k == 2 || k == 8 || cfg.Thorough() || cfg.Search { // two independent GCS filters above 64 KiB (thorough: one run above 1 MiB)
+					n := 30000
+					if (cfg.Thorough() || cfg.Search) && k == 4 && round == 0 {
+						n = 450000
+					}
+					runChild(params{Scenario: "gcsmulti", Goroutines: k, PerG: map[bool]int{true: 24, false: cfg.Scale(24, 60)}[n > 100000], Size: n, Seed: r.U64()})
 				}
 				if k == 8 || k == 32 || cfg.Thorough() || cfg.Search { // hammer: tiny array, 50 hash functions, long runs
 					runChild(params{Scenario: "adders", Goroutines: k, PerG: cfg.Scale(4000, 20000) / k * 4, Size: 1 + r.Intn(8), HashFuncs: 50, Tweak: r.U32(), Flags: uint32(wire.BloomUpdateNone), Seed: r.U64()})
